@@ -80,7 +80,7 @@ type Cluster struct {
 	Rules    []*Rule
 	Scanners map[uint64]*Scanner
 	nextScan uint64
-	Viol     []string // violations observed by the servers (routing, framing)
+	Viol     []string     // violations observed by the servers (routing, framing)
 	Now      func() int64 // fake time in ns, set by the simulator
 	StepFn   func() uint64
 	Rand     interface {
